@@ -633,6 +633,14 @@ class DAGRunConcurrentManager(DAGRunManagerLike):
         try:
             self._add_case_result(node_id)
         except SwitchCaseDoesNotExistError as ex:
+            if dag.is_oneof:
+                # Inside a OneOf subgraph the failure is contained: it is stored as the result of the switch
+                # so that the subgraph is marked as failed and the next one can be started.
+                self._node_storage.set_node_result(node_id, ex)
+                await self.__unlock_descendants(node_id)
+                await self.__unlock_itself(dag.dest)
+                return None
+
             await self.__raise_exc(ex)
 
         result = await self._run_dag(
